@@ -67,7 +67,9 @@ def build_script(c):
         for fam in ('gss-group1-sha1-*', 'gss-gex-sha1-*', 'gss-group14-sha256-*'):
             k['kex'] += [audit.gss_instance(rng, fam) for _ in range(3)]
     if kind == 'clean':
-        k = audit.sym_kex(['sntrup761x25519-sha512@openssh.com', 'kex-strict-s-v00@openssh.com'], ['ssh-ed25519'], ['aes256-gcm@openssh.com'], ['hmac-sha2-512-etm@openssh.com'])
+        # names without any failure or warning - each listed twice, so that whatever a rendering remembers from the first occurrence meets the second
+        k = audit.sym_kex(['sntrup761x25519-sha512@openssh.com', 'kex-strict-s-v00@openssh.com', 'sntrup761x25519-sha512@openssh.com'], ['ssh-ed25519', 'ssh-ed25519'], ['aes256-gcm@openssh.com', 'aes128-gcm@openssh.com', 'aes256-gcm@openssh.com'],
+                          ['hmac-sha2-512-etm@openssh.com', 'hmac-sha2-256-etm@openssh.com', 'hmac-sha2-512-etm@openssh.com'])
     if kind == 'terrapin':
         # several CBC ciphers and several ETM MACs, with the strict-kex marker on every other peer (advisory note) and without it (per-algorithm warnings)
         k['enc_sc'] = k['enc_cs'] = ['chacha20-poly1305@openssh.com', 'aes128-cbc', 'aes192-cbc', 'aes256-cbc', '3des-cbc', 'aes256-ctr', 'aes128-cbc']
